@@ -37,7 +37,8 @@ P = {
          "the event clauses, which ARE theorems of every run: every micro-log entry of every decision of every run satisfies ev_work "
          "(end = now + the duration drawn now for the configured operation on the configured machine, stochastic ones included), "
          "ev_machine_outage and ev_machine_release with respect to the state it was applied in "
-         "(C02_duration_events_hold_along_every_run; SMP/EventsOk.v, EventsRun.v); the same clauses are evaluated on every implementation transition. " + TIE),
+         "(C02_duration_events_hold_along_every_run; SMP/EventsOk.v, EventsRun.v), and every timed transition is applied with the clock EQUAL to the "
+         "component's occupied_till (ev_due: C02_timed_events_fire_exactly_when_due_along_every_run, SMP/Due.v); the same clauses are evaluated on every implementation transition. " + TIE),
  "C03": ("SM", "Theorems (Props/C03.v; SMP/WF, Preserve, StepInv, Reflect): every job is stored exactly once, every stored number is a "
          "job, locations name the holding buffer, flags agree with stores - preserved by EVERY applied transition with no side "
          "condition, hence in every reachable state and every micro-state under any action sequence, any fuel, any truncation setting "
@@ -70,7 +71,10 @@ P = {
          "state.step run out of EVERY fuel (lasso lemma SMP/Hang.v; the witness is replayed on the implementation on every run). "
          "Five genuine defects are recorded as known "
          "findings (buffer-full raise, two deadlocks, non-terminating ordered standalone buffer, zero-division reward); the check "
-         "classifies every abnormal episode end and reports anything not matching a listed finding. Termination itself is not a "
+         "classifies every abnormal episode end and reports anything not matching a listed finding. What every internal transition of a step does "
+         "is a theorem over whole runs of every instance: every micro-log entry satisfies the complete event vector of the monitors against one "
+         "witnessed pre-state, the dispatch clause up to its (refuted) readiness conjunct "
+         "(C05_every_micro_event_satisfies_the_monitor_vector_every_instance, SMP/AllEvents.v). Termination itself is not a "
          "theorem (fuel-bounded model). " + TIE),
  "C06": ("Classic", "Theorems (Props/C06.v; Classic/*): for classic instances (teleporting AGVs, zero travel) the Taillard lower bound "
          "computed by the model of calculate_lower_bound is below the makespan of EVERY feasible schedule (C06_lb_sound, via the packing "
@@ -96,7 +100,9 @@ P = {
          "a machine's pre-buffer has its first not-done operation there (C07_delivered_to_the_machine_of_the_next_operation_*, clause "
          "pre_ok_b, SMP/Deliver.v); stored time dependencies are well-formed (C07_time_dependencies_wellformed_*, clause depi_b); the delivery "
          "event clause ev_deliver (appended at the back of the route's destination, AGV empty/unclaimed/at the destination, blocked for the "
-         "longest sampled outage) holds of every micro-log entry of every run (C07_delivery_events_hold_along_every_run). " + TIE),
+         "longest sampled outage) holds of every micro-log entry of every run (C07_delivery_events_hold_along_every_run), and so does the pickup "
+         "clause ev_transit: own claim, not being processed, from a post-/standalone buffer at the release position, travel time for the recorded "
+         "destination (C07_pickup_events_hold_along_every_run, SMP/Transit.v); ev_dispatch up to its readiness conjunct (see C11). " + TIE),
  "C08": ("SM", "Theorems (Props/C08.v): capacity_b (no buffer above its capacity) in every reachable state and micro-state (from WFS); "
          "insertion at the back is a post-state theorem (SMP/Post); discipline order: every applied -> TRANSIT either keeps the AGV waiting "
          "or takes the job at the release position (C08_agv_takes_only_the_released_job); a machine start created by the simulator "
@@ -124,7 +130,7 @@ P = {
          "sampling clause the monitors evaluate on every outage-sampling transition (started exactly when due / with exactly the "
          "configured duration for deterministic definitions) is proved true of the model's sampler (C10_sampling_clause_holds_of_the_model) "
          "and, with ev_machine_outage / ev_machine_release / ev_transport_release, of every micro-log entry of every run "
-         "(C10_outage_events_hold_along_every_run). " + TIE),
+         "(C10_outage_events_hold_along_every_run); the releases fire exactly when the block has elapsed (C10_outage_ends_exactly_when_due_along_every_run). " + TIE),
  "C11": ("SM", "Theorems (Props/C11.v; SMP/Offers): every offered transport/machine transition passes validation and names a ready job "
          "(offers_are_valid); over whole runs of every instance every offer of every "
          "reachable result is valid in the state it is offered in (C11_every_offer_is_valid_in_every_run_every_instance, SMP/OffersValid.v). "
@@ -138,7 +144,9 @@ P = {
          "middleware never move it backwards and never past a pending completion; the clock invariant NO (nothing pending lies in the "
          "past) holds in every live reachable state and micro-state, with reflection to the extracted clock_b. Translation invariance "
          "is refuted by theorem for instances with outages (C12_shift_refuted: same instance and action, start 0 vs 7, clocks 3 vs "
-         "8; witness replayed on the implementation on every run; known finding) and explored otherwise (paired runs). " + TIE),
+         "8; witness replayed on the implementation on every run; known finding) and explored otherwise (paired runs). Event-exactness over whole "
+         "runs of every instance: every timed transition of every micro-log is applied with the clock equal to its component's occupied_till "
+         "(C12_events_fire_exactly_when_due_along_every_run, SMP/Due.v). " + TIE),
  "C13": ("Seed", "Theorems (Props/C13.v; Seed/SeedModel, SMP/NoStoch): in the model of seeding/reset the k-th episode depends only on "
          "(seed, k), not on global RNG state or other environments (C13_reset_independent_of_global, C13_noninterference); instances "
          "without stochastic times are oracle-independent (C13_seed_irrelevant*). Tie: cross-process runs of the implementation with "
